@@ -221,6 +221,11 @@ func c16RunInner(c c16Case) (sig string, err error) {
 			k++
 		}
 		tr := trs[k]
+		// the register reads back the last value written, whatever the transfer is doing (C06 states this; a
+		// restart inside a running transfer is only produced here)
+		if got := mp.Read(0xff46); got != tr.page {
+			return "ff46-readback-after-restart", fmt.Errorf("cycle %d: FF46 reads %02x, the last value written (at cycle %d) is %02x", t, got, tr.start, tr.page)
+		}
 		rel := t - tr.start
 		switch {
 		case rel >= 2 && rel <= 160:
